@@ -1,8 +1,8 @@
 """C16 - Every request sent to an S3 service is correctly signed."""
-from specs import streams, s3
+from specs import streams, s3, objects
 
 LEVEL = 'proof'
-UNITS = s3.request_units('C16') + s3.prepare_units('C16') + s3.method_units('C16') + s3.list_units('C16')[:1] + s3.ctor_units('C16') + streams.units('C16')
+UNITS = s3.request_units('C16') + s3.prepare_units('C16') + s3.method_units('C16') + s3.list_units('C16')[:1] + s3.ctor_units('C16') + streams.units('C16') + objects.upload_file_units('C16')
 from specs import families as _families
 UNITS = _families.with_families('C16', UNITS)
 BOUNDED = [{'name': 'C16.wire', 'script': 'bounded/c16_wire.py', 'timeout': 600, 'bound': 'EXHAUSTIVE per-byte encoding (256 values, path and query); wire scenarios: 3 (thorough: 6) payload sizes around the 128000-byte stream chunk x 3-4 names x prefixes/tokens over printable and non-ASCII alphabets, every adapter operation, independent SigV4; one scenario in which every distinct request is refused once (503/500) and the retried request is verified like any other'}]
